@@ -19,7 +19,9 @@ func init() {
 // real Cluster on it and reads the result back with its own reader.
 func c13run(line string) (string, []string) {
 	t := newToks(line)
-	t.s()
+	if t.s() == "cluster_root" { // shared with C05: a badly compressing list whose flat root is near the 16 KiB budget
+		return c05cluster(t.u(), t.n(), t.n() == 1)
+	}
 	dedup := t.n() == 1
 	depth, fan, gzipped := t.n(), t.n(), t.n() == 1
 	h, es, data, meta := parseArch(t)
@@ -71,6 +73,21 @@ func c13run(line string) (string, []string) {
 }
 
 func c13(r *rng, tier string, o *out) {
+	nb := 2
+	if tier == "thorough" {
+		nb = 20
+	}
+	for c := 0; c < nb; c++ {
+		seed := r.next()
+		lo := nearBudgetN(seed)
+		line := fmt.Sprintf("cluster_root %d %d %d", seed, lo, c%2)
+		impl, viol := runCase("C13", line)
+		idx := o.emit(line, impl, true)
+		o.count("cluster_root_near_budget")
+		for _, v := range viol {
+			o.violation(idx, v)
+		}
+	}
 	n := 150
 	if tier == "thorough" {
 		n = 4000
